@@ -413,6 +413,24 @@ func CheckC07(e *Env) (int, error) {
 	for i := 0; i < nSim; i++ {
 		plans = append(plans, mk("preinit", i))
 	}
+	// long processes: thousands of NewMnemonic calls on one simulated OS source (state that only shows at the Nth call)
+	nLong := 8
+	if e.Tier == "thorough" {
+		nLong = 200
+	}
+	for i := 0; i < nLong; i++ {
+		r := plan.NewRand(plan.Derive(e.Seed, "C07/long", uint64(i)))
+		var ops []plan.Op
+		for k := 0; k < 3000; k++ {
+			ops = append(ops, plan.Op{K: "new", N: wordCounts[r.Intn(5)], Lang: r.Intn(ref.NumLang)})
+		}
+		mode := []string{"preinit", "real"}[i%2]
+		hp := histPlan{Source: mode, Identity: true, Ops: ops}
+		if mode == "preinit" {
+			hp.Dev = &plan.Dev{Seed: r.Uint64()}
+		}
+		plans = append(plans, &c07Plan{Mode: mode, Hist: hp})
+	}
 	// the environment as a configuration input: every variable the tree is seen to read is set, in turn,
 	// to a few plausible values (a flag, a device path, a readable file) at process start
 	envNames, envOpaque := instr.EnvNames(e.RepoCopy())
@@ -471,7 +489,7 @@ func CheckC07(e *Env) (int, error) {
 		if v != nil {
 			viols = append(viols, g.violation(cp, v))
 		}
-		if len(samples) < 4 && i%601 == 0 {
+		if len(samples) < 4 && i%601 == 0 && len(cp.Hist.Ops) <= 40 {
 			samples = append(samples, cp)
 		}
 	})
@@ -510,6 +528,7 @@ func CheckC07(e *Env) (int, error) {
 		"environment_variables_read_by_the_tree": envNames,
 		"environment_reads_with_opaque_names":    envOpaque,
 		"histories_with_environment_set":         envRuns,
+		"long_histories_of_3000_calls":           nLong,
 		"raw_violations":                         len(viols),
 		"outcome_digest_simulated_source_runs":   od.String(),
 	}
